@@ -69,6 +69,10 @@ func (fm *FileHandleMap) Allocate(f absfs.File) uint64 {
 		}
 		// Evict starting from the lowest handles
 		for h := minHandle; evictCount > 0; h++ {
+			if h == handle {
+				// Never evict the handle being returned to the caller
+				continue
+			}
 			if file, exists := fm.handles[h]; exists {
 				// Clean up path mapping for evicted entries
 				if node, ok := file.(*NFSNode); ok {
